@@ -230,13 +230,15 @@ func (s IndexStep) Apply(val Value) (Value, error) {
 
 	// This value needs to be stripped of marks to check True(), but Index will
 	// apply the correct marks for the result.
-	has, _ := val.HasIndex(s.Key).Unmark()
+	has, hasMarks := val.HasIndex(s.Key).Unmark()
 	if !has.IsKnown() {
+		// The unknown result still carries the marks of the collection and
+		// of the key, as the result of Index would.
 		if val.Type().IsTupleType() {
 			// The element type of a tuple depends on the index.
-			return DynamicVal, nil
+			return DynamicVal.WithMarks(hasMarks), nil
 		}
-		return UnknownVal(val.Type().ElementType()), nil
+		return UnknownVal(val.Type().ElementType()).WithMarks(hasMarks), nil
 	}
 	if !has.True() {
 		return NilVal, errors.New("value does not have given index key")
